@@ -24,7 +24,9 @@ TEST = "TestVerifC27"
 
 def regen(ctx):
     facts = cgen.extract(REPO, go_env())
-    ctx.write_gen("ControlCodec.lean", cgen.render(facts))
+    text = cgen.render(facts)
+    ctx.write_gen("ControlCodec.lean", text)
+    ctx.gen_stamp = cgen.stamp_of(text)
     return facts
 
 
@@ -226,15 +228,29 @@ def run(ctx):
         ctx.notes.append("harness process: " + str(ctx.last_go_crash)[-600:])
     dropped = {}
     if model:
-        for w in model[0].split()[1:]:
+        st = [w for w in model[0].split() if w.startswith("stamp=")]
+        if not st or st[0] != "stamp=" + str(getattr(ctx, "gen_stamp", None)):
+            raise RuntimeError(f"driver binary is not built from the regenerated codec ({st} vs {getattr(ctx, 'gen_stamp', None)})")
+        for w in model[0].split()[2:]:
             k, _, v = w.partition("=")
             o, _, name = k.partition("/")
             if v == "0":
                 dropped.setdefault(o, set()).add(name)
         model = model[1:]
     else:
+        # the regenerated model / driver does not build: name violations with the options the known findings name,
+        # so that a finding that is already known is not reported as a new one
         proofs_ok = False
         model = []
+        try:
+            for f_ in json.load(open(os.path.join(HERE, "findings.json"))).get("findings", []):
+                mt = f_.get("match", {})
+                for n in mt.get("option", "").split("+"):
+                    if n and not n.startswith("<none>"):
+                        dropped.setdefault(mt.get("op", ""), set()).add(n)
+        except Exception:
+            pass
+        ctx.notes.append("driver unavailable: option attribution falls back to props/C27/findings.json")
     ctx.extra["model_dropped_options"] = {k: sorted(v) for k, v in dropped.items()}
     # ---- compare
     ctx.log(f"model+impl ran on {len(ops)} lines")
